@@ -160,7 +160,7 @@ class _DatasetFillerContext:
         # Open a new shard if the current one already contains too many
         # examples.
         if (current_progress.written_examples >= self._examples_per_shard or
-                metadata_changed):
+            (metadata_changed and current_progress.written_examples > 0)):
             # Close the current shard if needed.
             self.close_shard(shard=current_progress.shard, split=split)
             current_progress.shard = self._get_new_shard(split=split)
